@@ -167,7 +167,7 @@ fn main() {
                     }
                     let mut n = 0;
                     for v in total.violations.values() {
-                        if v.prop == "C15E" && !conc::edge_conforms(&v.sig) {
+                        if v.prop == "C15E" && (!conc::edge_conforms(&v.sig) || std::env::var("HARVEST_ALL").is_ok()) {
                             println!("{:8} {}", v.count, v.sig);
                             n += 1;
                         }
